@@ -73,7 +73,9 @@ def segments_of(writes, root, total=None):
     if not ws or any(w[1] is None for w in ws):
         return None
     n = total if total is not None else bytesview.known_len(root)
-    zero = isinstance(root, tuple) and len(root) == 3 and root[0] == "repeat" and root[1] == ("const", 0)
+    # what the unwritten positions hold: the value the buffer was filled with (`[0; N]`, `[0x04; N]`)
+    fill = root[1][1] if isinstance(root, tuple) and len(root) == 3 and root[0] == "repeat" and isinstance(root[1], tuple) and root[1][:1] == ("const",) and isinstance(root[1][1], int) and 0 <= root[1][1] < 256 else None
+    zero = fill is not None
     ws = sorted(ws, key=lambda w: w[1])
     out = []
     pos = 0
@@ -85,7 +87,7 @@ def segments_of(writes, root, total=None):
         if lo > pos:
             if not zero:
                 return None
-            out.append(("bytes", bytes(lo - pos)))
+            out.append(("bytes", bytes([fill]) * (lo - pos)))
         if src[0] == "slice":
             out += flow.byte_segments(src[1])
         elif src[0] == "byte":
@@ -98,7 +100,7 @@ def segments_of(writes, root, total=None):
     if n is not None and pos < n:
         if not zero:
             return None
-        out.append(("bytes", bytes(n - pos)))
+        out.append(("bytes", bytes([fill]) * (n - pos)))
     return out
 
 
@@ -111,3 +113,21 @@ def written_before(body, writes, root, use_bb):
         if not flow.cut_by_edges(body, 0, [use_bb], [(pb, bb) for pb in preds.get(bb, [])]):
             return False
     return True
+
+
+def returned_segments(p, N, body):
+    """ordered byte segments of the byte sequence a function returns — built as a chain / concat / push-extend sequence, by
+    a private encoder it calls, or in a fixed buffer filled at positions; adjacent constants merged.  The function is read
+    through its inlined view (private helpers are part of it)."""
+    from . import inline
+    view = inline.inlined(p, body) or body
+    T = flow.Terms(p, view)
+    ret = N.norm(T.place(0, (), view.return_blocks()[0], "t"))
+    segs = flow.expand_byte_calls(p, N, flow.byte_segments(ret))
+    if len(segs) == 1:
+        W = positional_writes(p, view, N)
+        root = root_of(segs[0])
+        s2 = segments_of(W, root)
+        if s2 is not None:
+            segs = s2
+    return flow.merge_const_segments(segs), view
